@@ -21,6 +21,7 @@ from stepup.core.file import File
 from stepup.core.hash import FileHash, StepHash
 from stepup.core.scheduler import Scheduler
 from stepup.core.sqlite3 import DBSession
+from stepup.core.static_tree import StaticTree
 from stepup.core.step import Step
 from stepup.core.workflow import Workflow
 
@@ -31,7 +32,8 @@ except ImportError:  # pragma: no cover
 
 from .common import coq_bool, coq_list, coq_str
 
-FILES = [f"f{i}" for i in range(8)] + ["d/g0", "d/g1"]
+FILES = [f"f{i}" for i in range(8)] + ["d/g0", "d/g1", "d/e/h0", "t/x"]
+TREES = ["d/", "d/e/", "t/"]
 STEPS = [f"s{i}" for i in range(7)]
 ENVS = ["E0", "E1"]
 
@@ -99,7 +101,7 @@ class Impl:
         kind, label = key
         if kind == "root":
             return self.wf.root
-        cls = {"file": File, "step": Step}[kind]
+        cls = {"file": File, "step": Step, "st": StaticTree}[kind]
         return self.wf.find(cls, label)
 
     # -- one transaction ----------------------------------------------------------------------
@@ -134,6 +136,9 @@ class Impl:
             wf.amend_step(self.node(("step", label)), inp_paths=list(inp), env_deps=list(env),
                           out_paths=list(out), vol_paths=list(vol),
                           ran_concurrently=lambda a, b: False)
+        elif name == "register_tree":
+            _, creator, path = op
+            wf.register_static_tree(self.node(creator), path)
         elif name == "reset_for_rerun":
             self.node(("step", op[1])).reset_for_rerun()
         elif name == "exec_end":
@@ -466,7 +471,7 @@ class Gen:
             if running:
                 r = [(l,) for l in running]
                 cats += [("declare", 6, r), ("define", 16, r), ("amend", 8, r), ("end", 10, r),
-                         ("hold", 2, r), ("release", 2, r)]
+                         ("hold", 2, r), ("release", 2, r), ("tree", 5, r), ("treefiles", 3, r)]
                 if any(self.detached.get(("step", l), False) and l in self.sstate for l in self.defs):
                     cats.append(("redefine", 12, r))
             if checks:
@@ -522,6 +527,19 @@ class Gen:
 
     async def g_declare(self, label):
         await self.record(("declare_static", ("step", label), self.subset(FILES, 1, 3)))
+
+    async def g_tree(self, label):
+        await self.record(("register_tree", ("step", label), self.rng.choice(TREES)))
+
+    async def g_treefiles(self, label):
+        """Static declarations under a tree path (before or after the tree; own or foreign tree) and
+        the same-creator file-then-tree hand-over."""
+        tree = self.rng.choice(TREES)
+        under = [f for f in FILES if f.startswith(tree)]
+        if under:
+            await self.record(("declare_static", ("step", label), self.subset(under, 1, 2)))
+        if self.rng.random() < 0.6:
+            await self.record(("register_tree", ("step", label), tree))
 
     async def g_define(self, label):
         rng = self.rng
@@ -672,6 +690,12 @@ def cq_hs(hs):
 
 
 def cq_op(op):
+    if op[0] == "register_tree":
+        return f"OpRegisterTree {cq_key(op[1])} {coq_str(op[2])}"
+    return f"OpBase ({cq_base_op(op)})"
+
+
+def cq_base_op(op):
     n = op[0]
     if n == "declare_static":
         return f"OpDeclareStatic {cq_key(op[1])} {cq_strs(sorted(set(op[2])))}"
@@ -739,11 +763,11 @@ def cq_trace(trace, defer_cap):
         if op[0] == "dispatch_error":
             continue
         items.append(f"({cq_op(op)}, {OUTC[outcome]}, {cq_dump(d)})")
-    return f"check_trace {defer_cap} " + coq_list(items)
+    return f"check_trace_t {defer_cap} " + coq_list(items)
 
 
 HEADER = ("From Coq Require Import List NArith Bool.\nImport ListNotations.\n"
-          "From SV Require Import lib.Bytes model.Graph model.GraphDump.\nOpen Scope N_scope.\n")
+          "From SV Require Import lib.Bytes model.Graph model.GraphDump model.GraphTree.\nOpen Scope N_scope.\n")
 
 
 async def gen_trace(rng, length, defer_cap=3):
